@@ -12,6 +12,7 @@ import (
 )
 
 type Config struct {
+	Unbuffered bool `json:",omitempty"` // batch mode: the parents reach join/union through a node that forwards begin/point/end separately
 	TolS  int    // tolerance seconds (0 = none)
 	Fill  string // "", "null", "0"
 	On    bool   // join on dimension 'h': parent a grouped by h,s (specific), parent b grouped by h
@@ -104,7 +105,7 @@ func run(t *testing.T, c Case) (o outcome, p *problem) {
 		}
 		kit.Wait()
 		for _, pt := range env.Diag.Sink("J").Points() {
-			o.join = append(o.join, fmt.Sprintf("t=%d g=%q %s", pt.T.Sub(kit.T0)/time.Second, pt.Group, kit.FmtFields(pt.Fields)))
+			o.join = append(o.join, fmt.Sprintf("n=%s t=%d g=%q %s", pt.Name, pt.T.Sub(kit.T0)/time.Second, pt.Group, kit.FmtFields(pt.Fields)))
 		}
 		for _, pt := range env.Diag.Sink("U").Points() {
 			o.union = append(o.union, fmt.Sprintf("%s:%d@%d", pt.Name, pt.Fields["v"], pt.T.Sub(kit.T0)/time.Second))
@@ -158,10 +159,14 @@ func refJoin(c Config, seqs [][]int) []string {
 		for k := 0; k < max; k++ {
 			fields := map[string]any{}
 			complete := true
+			name := "" // the joined point is named after the left-most parent present (no streamName configured)
 			for par, l := range lists {
 				key := string(rune('a'+par)) + ".v"
 				if k < len(l) {
 					fields[key] = l[k].v
+					if name == "" {
+						name = string(rune('a' + par))
+					}
 				} else {
 					complete = false
 					switch c.Fill {
@@ -175,7 +180,7 @@ func refJoin(c Config, seqs [][]int) []string {
 			if !complete && c.Fill == "" {
 				continue
 			}
-			out = append(out, fmt.Sprintf("t=%d g=%q %s", tm.Sub(kit.T0)/time.Second, "", kit.FmtFields(fields)))
+			out = append(out, fmt.Sprintf("n=%s t=%d g=%q %s", name, tm.Sub(kit.T0)/time.Second, "", kit.FmtFields(fields)))
 		}
 	}
 	sort.Strings(out)
